@@ -557,6 +557,17 @@ class ExprMixin:
   def ev_ListComp(self, node, env):
     return VList(self._comp(node, env))
 
+  def ev_DictComp(self, node, env):
+    if len(node.generators) != 1 or node.generators[0].ifs:
+      raise Unsupported('dict comprehension with conditions / several generators')
+    g = node.generators[0]
+    d = {}
+    for x in self.iter_concrete(self.ev(g.iter, env)):
+      e2 = {'__parent__': env}
+      self.assign_target(g.target, x, e2)
+      d[self.hashable(self.ev(node.key, e2))] = self.ev(node.value, e2)
+    return VDict(d)
+
   def ev_GeneratorExp(self, node, env):
     if len(node.generators) == 1 and not node.generators[0].ifs and not self.spec_mode:
       src = self.ev(node.generators[0].iter, env)
